@@ -1055,6 +1055,9 @@ func (w *hpW) step(phase, k int) {
 			}
 		}
 	}
+	if (op == hpPop || op == hpRemove) && w.n == 0 {
+		op = -1 // a drain that has reached the bottom: do not spend the phase on empty pops
+	}
 	if w.queue {
 		if op < 0 {
 			op = []int{hpPush, hpPush, hpRemove, hpPop, hpPeek, hpLen, hpGrow, hpCollect, hpContains, hpPriority, hpRemove, hpPush}[r.Choose(12, "op")]
